@@ -549,10 +549,32 @@ impl Ctx {
 // Transform an expression under a given substitution; queue any needed instances
 fn mono_expr(ctx: &mut Ctx, e: &core::Expr, s: &Subst) -> MonoExpr {
     match e.clone() {
-        core::Expr::EVar { name, ty } => MonoExpr::EVar {
-            name,
-            ty: subst_ty(&ty, s),
-        },
+        core::Expr::EVar { name, ty } => {
+            let new_ty = subst_ty(&ty, s);
+            // A generic function used as a value (passed or stored, not called) needs its
+            // instance just like a call does; the instance is fixed by the type at the use.
+            if !has_tparam(&new_ty)
+                && let Some(callee) = ctx.orig_fns.get(&name)
+                && fn_is_generic(callee)
+            {
+                let generic_func_name = callee.name.clone();
+                let fn_ty = Ty::TFunc {
+                    params: callee.params.iter().map(|(_, t)| t.clone()).collect(),
+                    ret_ty: Box::new(callee.ret_ty.clone()),
+                };
+                let mut value_subst: Subst = IndexMap::new();
+                if unify(&fn_ty, &new_ty, &mut value_subst).is_ok()
+                    && !value_subst.values().any(has_tparam)
+                {
+                    let spec = ctx.ensure_instance(&generic_func_name, value_subst);
+                    return MonoExpr::EVar {
+                        name: spec,
+                        ty: new_ty,
+                    };
+                }
+            }
+            MonoExpr::EVar { name, ty: new_ty }
+        }
         core::Expr::EPrim { value, ty } => {
             let ty = subst_ty(&ty, s);
             MonoExpr::EPrim { value, ty }
@@ -665,7 +687,14 @@ fn mono_expr(ctx: &mut Ctx, e: &core::Expr, s: &Subst) -> MonoExpr {
             ty: subst_ty(&ty, s),
         },
         core::Expr::ECall { func, args, ty } => {
-            let new_func = mono_expr(ctx, &func, s);
+            // A directly called function is instantiated below from the argument types.
+            let new_func = match func.as_ref() {
+                core::Expr::EVar { name, ty } => MonoExpr::EVar {
+                    name: name.clone(),
+                    ty: subst_ty(ty, s),
+                },
+                other => mono_expr(ctx, other, s),
+            };
             let new_args: Vec<MonoExpr> = args.iter().map(|a| mono_expr(ctx, a, s)).collect();
             let new_ty = subst_ty(&ty, s);
 
